@@ -71,6 +71,8 @@ where R: Ring, for<'x> &'x R: RingOps<R> {
         };
 
         let vecs = itr.map(|j| { 
+            #[cfg(yui_verif)]
+            crate::verif::emit(|| crate::verif::Event::ColStart { site: "schur", col: j });
             let x = c * ainvb.col_vec(j);
             let y = d.col_vec(j);
             y - x
